@@ -101,6 +101,57 @@ func evalSym(calc *calculator.ExpressionCalculator, env sx.SX) sx.SX {
 var c19Once sync.Once
 var c19Isolation string
 
+// probeManyVariables: one compiled expression over 3 .. 70 variables, evaluated in turns under two variable collections
+// with different values (and a third that lacks one variable): every evaluation returns what its own collection says
+func probeManyVariables() string {
+	for _, n := range []int{3, 16, 17, 18, 33, 40, 70} {
+		var names []string
+		for i := 0; i < n; i++ {
+			names = append(names, fmt.Sprintf("v%d", i))
+		}
+		calc := calculator.NewExpressionCalculator()
+		calc.SetAutoVariables(false)
+		if err := calc.SetExpression(strings.Join(names, " + ")); err != nil {
+			return "a sum of " + fmt.Sprint(n) + " variables was rejected: " + err.Error()
+		}
+		mk := func(scale int) (*variables.VariableCollection, int) {
+			vars := variables.NewVariableCollection()
+			total := 0
+			for i, nm := range names {
+				vars.Add(variables.NewVariable(nm, variants.VariantFromInteger((i+1)*scale)))
+				total += (i + 1) * scale
+			}
+			return vars, total
+		}
+		a, wa := mk(1)
+		b, wb := mk(1000)
+		short, _ := mk(7)
+		short.RemoveByName(names[n-1])
+		for round := 0; round < 3; round++ {
+			for _, c := range []struct {
+				vars *variables.VariableCollection
+				want int
+			}{{a, wa}, {b, wb}, {a, wa}} {
+				r, err := calc.EvaluateUsingVariables(c.vars)
+				if err != nil || r == nil || r.Type() != variants.Integer || r.AsInteger() != c.want {
+					return fmt.Sprintf("a sum of %d variables, evaluated in turns under two collections: got %s (%v), this collection's values add up to %d", n, sx.Text(valSXorNil(r)), err, c.want)
+				}
+			}
+			if r, err := calc.EvaluateUsingVariables(short); err == nil {
+				return fmt.Sprintf("a sum of %d variables evaluated under a collection that lacks %s returned %s instead of an error", n, names[n-1], sx.Text(valSXorNil(r)))
+			}
+		}
+	}
+	return ""
+}
+
+func valSXorNil(v *variants.Variant) sx.SX {
+	if v == nil {
+		return sx.L()
+	}
+	return valSX(v)
+}
+
 // probeFunctionPurity: every registered function called through an expression Name(a), Name(a, b), Name(a, b, c) ... with
 // variables of every type (doubles and arrays included): the variable values, the compiled program and the function table
 // are what they were, under both managers, and the second evaluation returns what the first returned (clock and random
@@ -357,6 +408,9 @@ func runC19(in sx.SX) (sx.SX, string) {
 			c19Isolation = probeIsolation()
 			if c19Isolation == "" {
 				c19Isolation = probeFunctionPurity()
+			}
+			if c19Isolation == "" {
+				c19Isolation = probeManyVariables()
 			}
 		})
 		if c19Isolation != "" && fail == "" {
